@@ -348,7 +348,7 @@ def execute_pair(op, D, case, attempt):
     if "rhs" in arg:
         R = ob.build(arg["rhs"])
         DR = _dense_of(arg["rhs"])
-        rcls = (type(R).__name__, R)
+        rcls = (type(R).__name__, R, [int(x) for x in DR.shape])
         if o == "add_op":
             return attempt(lambda: op + R), attempt(lambda: D + DR), rcls
         if o == "sub_op":
@@ -373,29 +373,29 @@ def execute_pair(op, D, case, attempt):
         raise ValueError(o)
     X = ob.tt(arg)
     if o == "radd":
-        return attempt(lambda: X + op), attempt(lambda: X + D), ("Tensor", None)
+        return attempt(lambda: X + op), attempt(lambda: X + D), ("Tensor", None, None)
     if o == "rsub":
-        return attempt(lambda: X - op), attempt(lambda: X - D), ("Tensor", None)
+        return attempt(lambda: X - op), attempt(lambda: X - D), ("Tensor", None, None)
     if o == "rmul":
-        return attempt(lambda: X * op), attempt(lambda: X * D), ("Tensor", None)
+        return attempt(lambda: X * op), attempt(lambda: X * D), ("Tensor", None, None)
     if o == "rmatmul_dunder":
-        return attempt(lambda: X @ op), attempt(lambda: X @ D), ("Tensor", None)
+        return attempt(lambda: X @ op), attempt(lambda: X @ D), ("Tensor", None, None)
     if o == "torch_add_t":
-        return attempt(lambda: torch.add(op, X)), attempt(lambda: D + X), ("Tensor", None)
+        return attempt(lambda: torch.add(op, X)), attempt(lambda: D + X), ("Tensor", None, None)
     if o == "torch_sub_t":
-        return attempt(lambda: torch.sub(op, X)), attempt(lambda: D - X), ("Tensor", None)
+        return attempt(lambda: torch.sub(op, X)), attempt(lambda: D - X), ("Tensor", None, None)
     if o == "torch_mul_t":
-        return attempt(lambda: torch.mul(op, X)), attempt(lambda: D * X), ("Tensor", None)
+        return attempt(lambda: torch.mul(op, X)), attempt(lambda: D * X), ("Tensor", None, None)
     if o == "torch_add_rt":
-        return attempt(lambda: torch.add(X, op)), attempt(lambda: X + D), ("Tensor", None)
+        return attempt(lambda: torch.add(X, op)), attempt(lambda: X + D), ("Tensor", None, None)
     if o == "torch_sub_rt":
-        return attempt(lambda: torch.sub(X, op)), attempt(lambda: X - D), ("Tensor", None)
+        return attempt(lambda: torch.sub(X, op)), attempt(lambda: X - D), ("Tensor", None, None)
     if o == "torch_mul_rt":
-        return attempt(lambda: torch.mul(X, op)), attempt(lambda: X * D), ("Tensor", None)
+        return attempt(lambda: torch.mul(X, op)), attempt(lambda: X * D), ("Tensor", None, None)
     if o == "torch_matmul_rt":
-        return attempt(lambda: torch.matmul(X, op)), attempt(lambda: X @ D), ("Tensor", None)
+        return attempt(lambda: torch.matmul(X, op)), attempt(lambda: X @ D), ("Tensor", None, None)
     if o == "add_low_rank":
-        return attempt(lambda: op.add_low_rank(X)), attempt(lambda: D + X @ X.mT), ("Tensor", None)
+        return attempt(lambda: op.add_low_rank(X)), attempt(lambda: D + X @ X.mT), ("Tensor", None, None)
     raise ValueError(o)
 
 
